@@ -886,6 +886,21 @@ loop:
 		case <-timeoutCh:
 			out.Anomaly = "hang: event channel not closed within 20s"
 			cancel()
+			// C12: cancelling the caller's context must end the run within bounded time
+			grace := time.After(3 * time.Second)
+		drain:
+			for {
+				select {
+				case _, ok := <-ch:
+					if !ok {
+						break drain
+					}
+				case <-barrier:
+				case <-grace:
+					out.Anomaly += "; still open 3s after the context was cancelled"
+					break drain
+				}
+			}
 			break loop
 		}
 	}
